@@ -300,7 +300,7 @@ func (m *c11) issue(rt *rapid.T, kind string) {
 // C11 — every request completes and gets its own response.
 func TestC11Requests(t *testing.T) {
 	rapid.Check(t, func(rt *rapid.T) {
-		m := &c11{H: newH(rt, "C11", sim.Options{Config: baseConfig()})}
+		m := &c11{H: newH(rt, "C11", asVolatileSession(rt, sim.Options{Config: baseConfig()}))}
 		h := m.H
 		concurrent := false
 		defer func() { h.finish(concurrent) }()
